@@ -38,6 +38,7 @@ var c09Seeds = []c09Seed{
 	{name: "foreign-ragged", foreign: `<w:tbl><w:tblGrid><w:gridCol w:w="100"/><w:gridCol w:w="100"/></w:tblGrid><w:tr><w:tc><w:p><w:r><w:t>a</w:t></w:r></w:p></w:tc><w:tc><w:p><w:r><w:t>b</w:t></w:r></w:p></w:tc></w:tr><w:tr><w:tc><w:p><w:r><w:t>c</w:t></w:r></w:p></w:tc></w:tr></w:tbl>`},
 	{name: "foreign-nogrid", foreign: `<w:tbl><w:tr><w:tc><w:p><w:r><w:t>a</w:t></w:r></w:p></w:tc><w:tc><w:p><w:r><w:t>b</w:t></w:r></w:p></w:tc></w:tr><w:tr><w:tc><w:p><w:r><w:t>c</w:t></w:r></w:p></w:tc><w:tc><w:p><w:r><w:t>d</w:t></w:r></w:p></w:tc></w:tr></w:tbl>`},
 	{name: "foreign-spans", foreign: `<w:tbl><w:tblGrid><w:gridCol w:w="100"/><w:gridCol w:w="100"/><w:gridCol w:w="100"/></w:tblGrid><w:tr><w:tc><w:tcPr><w:gridSpan w:val="2"/></w:tcPr><w:p><w:r><w:t>a</w:t></w:r></w:p></w:tc><w:tc><w:tcPr><w:vMerge w:val="restart"/></w:tcPr><w:p><w:r><w:t>b</w:t></w:r></w:p></w:tc></w:tr><w:tr><w:tc><w:p><w:r><w:t>c</w:t></w:r></w:p></w:tc><w:tc><w:p><w:r><w:t>d</w:t></w:r></w:p></w:tc><w:tc><w:tcPr><w:vMerge/></w:tcPr><w:p/></w:tc></w:tr></w:tbl>`},
+	{name: "1x4", r: 1, c: 4}, {name: "2x4", r: 2, c: 4}, // wide rows: two separate merges fit into one row (seed C09-d2)
 	{name: "foreign-nested", foreign: `<w:tbl><w:tblGrid><w:gridCol w:w="100"/><w:gridCol w:w="100"/></w:tblGrid><w:tr><w:tc><w:p><w:r><w:t>a</w:t></w:r></w:p><w:tbl><w:tblGrid><w:gridCol w:w="50"/></w:tblGrid><w:tr><w:tc><w:p><w:r><w:t>n</w:t></w:r></w:p></w:tc></w:tr></w:tbl><w:p/></w:tc><w:tc><w:p><w:r><w:t>b</w:t></w:r></w:p></w:tc></w:tr></w:tbl>`},
 }
 
@@ -106,6 +107,8 @@ type c09Args struct {
 	Seeds    []string `json:"seeds"`
 	NoRange  bool     `json:"norange"` // leave MergeCellsRange out (used for the deeper bound)
 	MaxShape int      `json:"maxshape"`
+	// Only: when non-empty, only these operation kinds are enabled (merge-focused deeper phase)
+	Only []string `json:"only"`
 }
 
 type c09Inst struct {
@@ -293,6 +296,15 @@ func (i *c09Inst) Enabled(op int) bool {
 	}
 	if o.kind == "MergeCellsRange" && i.args.NoRange {
 		return false
+	}
+	if len(i.args.Only) > 0 {
+		ok := false
+		for _, k := range i.args.Only {
+			ok = ok || k == o.kind
+		}
+		if !ok {
+			return false
+		}
 	}
 	if o.kind == "CopyTable" && i.orig != nil {
 		return false
@@ -1150,25 +1162,30 @@ func runC09(r *rep.Run) {
 		seeds   []string
 		depth   int
 		norange bool
+		only    []string
 	}
+	mergeOnly := []string{"MergeCellsHorizontal", "MergeCellsVertical", "UnmergeCells", "SetCellText"}
 	var phases []phase
 	if r.Tier == "quick" {
 		phases = []phase{
-			{[]string{"1x1", "1x2", "2x1", "2x2"}, 4, false},
-			{[]string{"2x3", "3x3"}, 3, false},
-			{[]string{"foreign-ragged", "foreign-nogrid", "foreign-spans", "foreign-nested"}, 3, false},
+			{[]string{"1x1", "1x2", "2x1", "2x2"}, 4, false, nil},
+			{[]string{"2x3", "3x3"}, 3, false, nil},
+			{[]string{"foreign-ragged", "foreign-nogrid", "foreign-spans", "foreign-nested"}, 3, false, nil},
+			{[]string{"1x4", "2x4"}, 4, true, mergeOnly},
 		}
 	} else {
 		phases = []phase{
-			{[]string{"1x1", "1x2", "2x1", "2x2"}, 5, false},
-			{[]string{"2x3", "3x3"}, 4, false},
-			{[]string{"foreign-ragged", "foreign-nogrid", "foreign-spans", "foreign-nested"}, 4, false},
+			{[]string{"1x1", "1x2", "2x1", "2x2"}, 5, false, nil},
+			{[]string{"2x3", "3x3"}, 4, false, nil},
+			{[]string{"foreign-ragged", "foreign-nogrid", "foreign-spans", "foreign-nested"}, 4, false, nil},
+			{[]string{"1x4", "2x4"}, 5, true, mergeOnly},
+			{[]string{"1x4", "2x4"}, 3, false, nil},
 		}
 	}
 	var ph []interface{}
 	for _, p := range phases {
-		ph = append(ph, map[string]interface{}{"seeds": p.seeds, "depth_including_seed": p.depth, "without_MergeCellsRange": p.norange})
-		part := seqx.Search("C09", seqx.Opts{Depth: p.depth, Deadline: r.Deadline, Args: c09Args{Seeds: p.seeds, NoRange: p.norange}})
+		ph = append(ph, map[string]interface{}{"seeds": p.seeds, "depth_including_seed": p.depth, "without_MergeCellsRange": p.norange, "only": p.only})
+		part := seqx.Search("C09", seqx.Opts{Depth: p.depth, Deadline: r.Deadline, Args: c09Args{Seeds: p.seeds, NoRange: p.norange, Only: p.only}})
 		r.Merge(part)
 	}
 	r.Bounds["phases"] = ph
